@@ -325,6 +325,9 @@ def check_exits_in_decoders(rep, prog, runs):
             funcs.add(e.func)
             if e.kind in ("exit", "print", "extcall"):
                 executed.add(id(e.node))
+    graph = effects.call_graph(prog)
+    roots = set(DECODERS) | {q for q in graph if q.split(".")[-1] in ("parseUDToJson", "parseSRCToJson")}
+    decode_side = effects.reachable(graph, roots)
     n = 0
     for cs in effects.call_sites(prog):
         name = cs.name or ""
@@ -332,7 +335,11 @@ def check_exits_in_decoders(rep, prog, runs):
         if short not in effects.EXITS:
             continue
         q = cs.qual
-        if q in {PT + m for m in MODE_FUNCS} | {PT + "main", PT + "processId", PT + "parsePEL", "io_drawer.dump.main"}:
+        top = effects.enclosing_top_function(cs.node)
+        tq = effects._qual_of(cs.module, top) if top is not None else cs.module.name + ".<module>"
+        if tq not in decode_side or tq == PT + "parsePEL":
+            # command-line side code (argument validation, mode dispatch) may end the run; parsePEL's own exit is the
+            # documented exit_on_error path checked above
             continue
         n += 1
         dead = q in funcs and id(cs.node) not in executed
